@@ -261,3 +261,9 @@ try:
     ITEMS += _C14
 except ImportError:
     pass
+
+try:
+    from translate_c11 import ITEMS as _C11
+    ITEMS += _C11
+except ImportError:
+    pass
